@@ -48,6 +48,9 @@ def row_fn(c, dtype):
             return (base.astype(np.int64) % 2).astype(bool)
         if dtype == "int64":
             return base.astype(np.int64)
+        if dtype == "prob":        # class-probability rows: non-negative, summing to one up to rounding (soft-max of the scores)
+            z = np.exp((base - base.max()) / (1.0 + np.abs(base).max()))
+            return (z / z.sum()).astype("float64")
         return base.astype(dtype)
     return g
 
@@ -101,7 +104,7 @@ def main(run):
     # ---------------- SklearnWrapper / TorchWrapper canonical forms
     for wrapper_kind in ("sklearn", "torch"):
         for shape_kind, c in [("(n,)", 1), ("(n,1)", 1), ("(n,c)", 1), ("(n,c)", 2), ("(n,c)", 3), ("()", 1), ("(c,)", 2), ("(c,)", 3), ("(c,)", 1)]:
-            for dtype in ("float64", "float32", "int64", "bool"):
+            for dtype in ("float64", "float32", "int64", "bool", "prob"):
                 if wrapper_kind == "torch" and dtype == "bool" and shape_kind in ("()",):
                     pass
                 for use_names in (False, True, "one", "two", "all"):
@@ -152,7 +155,9 @@ def main(run):
                         for n in (1, 2, 7):
                             for cont in (list, tuple, collections.deque):
                                 xs = [rand_x() for _ in range(n)]
-                                if n > 1 and rnd.random() < 0.5:
+                                if n >= 3 and rnd.random() < 0.4:
+                                    xs[n - 1] = dict(xs[0])       # the same row occurs twice in the batch, not adjacent ([a, b, ..., a])
+                                elif n > 1 and rnd.random() < 0.5:
                                     # first row all Python ints, later rows with fractional parts (dtype promotion over the batch)
                                     xs[0] = {f: int(v) for f, v in xs[0].items()}
                                     xs[1:] = [{f: v + 0.5 for f, v in xi.items()} for xi in xs[1:]]
